@@ -41,6 +41,26 @@ def syntax_kind_names(w):
     return {v['discr']: v['name'] for v in a['variants']}
 
 
+SINKS = re.compile(r'::(push|push_back|push_front|extend|insert|collect|collect_vec|append|concat|intersperse|sort\w*|fold|for_each|unzip|partition|from_iter|chain|zip)$')
+
+
+def _search_only(w, b):
+    """the function (with its closures) neither builds a collection nor produces a document: whatever order it visits nodes in cannot reach the output"""
+    ret = b.locals[0]['ty']['s']
+    if 'DocBuilder' in ret or 'Vec<' in ret or 'SmallVec' in ret:
+        return False
+    own = [x for x in w.bodies.values() if x.id == b.id or x.id.startswith(b.id + '::{closure')]
+    for x in own:
+        for _, t in x.calls():
+            pth = resolved_path(t) or callee_path(t) or ''
+            if SINKS.search(pth) or pth.startswith(('pretty::', 'typstyle_core::pretty::')) and not pth.startswith(('pretty::util::', 'typstyle_core::pretty::util::')):
+                return False
+            cb = w.bodies.get(resolved_id(t))
+            if cb is not None and cb.crate is w.core and not cb.short.startswith('pretty::util::') and cb.id not in {y.id for y in own}:
+                return False
+    return True
+
+
 def order_changing_calls(w, crate):
     out = []
     for b in w.fn_bodies(crate):
@@ -48,6 +68,12 @@ def order_changing_calls(w, crate):
             p = resolved_path(t) or callee_path(t) or ''
             m = p.rsplit('::', 1)[-1]
             if m in effects.ORDER_CHANGING and ('slice' in p or 'Vec' in p or 'vec::' in p or 'Itertools' in p or 'Iterator' in p or 'VecDeque' in p):
+                # an iterator over numbers (`(0..n).rev()`: index arithmetic) carries no nodes: nothing of the tree is reordered
+                self_ty = ((t.get('callee') or {}).get('self_ty') or {}).get('s', '') or (b.locals[t['args'][0]['p']['l']]['ty']['s'] if t['args'] and t['args'][0].get('o') in ('move', 'copy') else '')
+                if m == 'rev' and re.match(r'^(&mut )?std::ops::Range(Inclusive)?<(usize|u\d+|i\d+|isize)>$', self_ty):
+                    continue
+                if m == 'rev' and _search_only(w, b):
+                    continue          # a backwards *search* (`for (i, n) in xs.iter().enumerate().rev() { if .. { end = i; break } }`): nothing is collected or emitted
                 out.append((b, bi, t, p, m))
     return out
 
